@@ -30,7 +30,10 @@ def run(ctx):
              "lookup+getattr+readlink / readdir / getxattr+listxattr / prefetch-store with an offset filter / "
              "background fetch / eviction / truncated cache entry / loss of the compressed cache / registry faults / "
              "concurrent readers / a second reader scheduled between a reader's cache hit and its use of the entry "
-             "(small on-memory LRU in front of the directory cache; oracle-only); every read, lookup, listing, attribute block and xattr is compared with the tar "
+             "(small on-memory LRU in front of the directory cache; oracle-only) / FUSE passthrough: node.Open merges the "
+             "file into one backing file (merge buffers of 2-4 chunks, 1-4 workers, direct-mode directory cache, chunks "
+             "pre-cached by partial reads or prefetch-stores, merged file dropped and rebuilt after evictions) and the "
+             "WHOLE content of the passthrough fd is compared with the tar (8 hand-written scenarios every run + random); every read, lookup, listing, attribute block and xattr is compared with the tar "
              "itself (oracle) and with the Lean model (chunk lookup, read arithmetic incl. which chunks get stored, "
              "tarView + entryToAttr for metadata); both metadata stores (db store from the cmd module); a history is "
              "distinct by (build options, stack configuration, #entries, #chunks, op shape). Hand-written scenarios "
